@@ -320,18 +320,29 @@ pub fn generate_c16(rng: &mut Rng, idx: usize, _tier: Tier) -> CaseOut {
     let mut tags = vec![format!("sibling:{}", match &sibling { Some((_, _, _, Some(_))) => "resolves", Some(_) => "skipped", None => "none" }), format!("suffix:{suffix}"), format!("shape:{shape}"), format!("resolves:{resolves}"), format!("via-diff:{via_diff}")];
     // a -E mapping onto an unsupported grammar is rejected up front (real binary)
     let mut extra = true;
+    let mut main_extra: Option<String> = None;
     let mut cli_json = json!(null);
     if idx % 10 == 9 {
         let bad = ["nosuch", "PY", "", "py "][rng.below(4)];
         let c = cli::run(&CliRun { files: vec![(path.clone(), text.clone())], args: vec!["-E".into(), format!("qq={bad}")], ..Default::default() });
         // "py " is trimmed by the flag parser and therefore accepted
         let want_reject = bad != "py ";
-        let rejected = c.code.map(|x| x != 0).unwrap_or(false) && c.stderr.contains("Unsupported extension mapping");
-        extra = if want_reject { rejected } else { c.code == Some(0) || c.code == Some(1) && !c.stderr.contains("Unsupported") };
+        // a refusal, whatever its wording: exit status 1, an `Error: ...` line instead of a report, nothing on stdout
+        let refused = c.code == Some(1) && c.stderr.starts_with("Error:") && c.stdout.is_empty();
+        extra = if want_reject { refused } else { !refused && (c.code == Some(0) || c.code == Some(1)) };
+        // and the model of main.rs / flags.rs must predict the same outcome
+        let m = MainArgs { ext_raw: vec![format!("qq={bad}")], ..Default::default() };
+        main_extra = Some(format!(
+            "(check_main {} [(mkmfile {} {} [{}] true true false false false)] {} [] {} true)",
+            m.coq(&None, true), cstr(&path), cstr(&text), spans.join("; "), Tables::default().coq(), mainargs::mobs_coq(&c, false)
+        ));
         tags.push(format!("bad-mapping:{bad:?}"));
         cli_json = json!({"args": ["-E", format!("qq={bad}")], "exit": c.code, "stderr": c.stderr});
     }
     let mut coq = format!("(check_scope {} {} (Some [{}]) {})", rcase, emit::lobs(&out.list), exp.join("; "), cbool(extra));
+    if let Some(me) = &main_extra {
+        coq = format!("(both_verdicts {coq} {me})");
+    }
     if let Outcome::Err(_, _) = &out.list {
         tags.push("outcome:error".into());
     }
